@@ -957,8 +957,8 @@ SUBS = [
         rule='the same vectors / frames / index and column variants through nona(x) (edge None on every object; edge 1 / -1 on the pandas objects with unique '
              'labels). Oracle: exactly the all-NaN rows go (edge 1: only those after the last valid row, edge -1: only those before the first), labels kept, '
              'array == .values, argument unchanged. non-trivial = the input has an all-NaN row or is empty',
-        floor=0.3, class_floors={'edge_keeps_allnan_rows': 0.05, 'allnan_row_2d': 0.1, 'rows_dropped': 0.3, 'rows>=64': 0.08, 'ix_duplicate_labels': 0.1,
-                                 'ix=int_unique': 0.1, 'cols_duplicated': 0.03, 'nothing_to_drop': 0.03}),
+        floor=0.3, class_floors={'edge_keeps_allnan_rows': 0.05, 'allnan_row_2d': 0.1, 'rows_dropped': 0.3, 'rows>=64': 0.08, 'ix_duplicate_labels': 0.05,
+                                 'ix=int_unique': 0.1, 'cols_duplicated': 0.015, 'nothing_to_drop': 0.03}),
     Sub('const_limit', _const_limit_case, run_const_limit, quick=1200, thorough=3000,
         rule='the same vectors / frames / index and column variants with a numeric constant under limit 1/2/3 - alone (bare or in a list) or in a list of 2-3 '
              'with ffill/bfill/other constants. Oracle (deliberately not: which NaN get filled): the ndarray result equals the .values of all three pandas '
